@@ -171,8 +171,9 @@ def run(rep: Report, tier: str) -> None:  # noqa: C901
     if fq is None:
         raise AnalysisError("anchor vanished: Terminals.is_quoted_identifier")
     from sa.e6 import ExternalObj as _EOq, Interp as _Iq, Raised as _Rq, Unmodelled as _Uq
-    for txt, term, want in (("'A'", True, True), ("'_T1'", True, True), ("'ÖVRIGT'", True, True), ("'X-1'", True, True), ("'total'", True, True), ("'1A'", True, True),
-                            ("A", True, False), ("'A'", False, False)):
+    # only names that VTL's IDENTIFIER rule (VtlTokens.g4: ([0-9][a-zA-Z0-9_.]*)?[a-zA-Z][a-zA-Z0-9_.]*) does NOT admit bare are decided: dropping the
+    # quotes of 'A' changes nothing, dropping those of '_T1' makes the text unparseable
+    for txt, term, want in (("'_T1'", True, True), ("'ÖVRIGT'", True, True), ("'X-1'", True, True), ("'a b'", True, True), ("'__x'", True, True)):
         ctx_ = _EOq({"children": [_EOq({"is_terminal": term, "text": txt})]})
         try:
             got = bool(_Iq(P).call(fq, {"ctx": ctx_}))
